@@ -256,7 +256,23 @@ def run(tier, workers=None):
                 rep.violation("C03|store:%s|differs-from-unconditional:%s" % (k, op[0]), "store op with matching etag argument behaves differently from the same op without it", {"backend": k, "history": hist, "op": op})
         finally:
             s2.close()
+    # E5: a conditional request whose condition is checked, after which another client's write is handled at one of the
+    # request's suspension points (body still arriving, member being loaded/updated in a thread): the outcome must be
+    # what one of the two orders gives - a condition that held at the head of the request does not license the write
+    from . import c05
+
+    ojobs = [(r, w, "C03") for (r, w) in (("put-c-if-none-match-star", "put-c"), ("put-a-if-match", "put-a-other"), ("put-a-if-match", "delete-a"), ("put-a-if-none-match-etag", "delete-a"),
+                                          ("delete-a-if-match", "put-a-other"), ("put-a-if-none-match-etag", "put-a-other"), ("put-a-if-match-star", "delete-a"))]
+    with mp.get_context("fork").Pool(len(ojobs)) as pool:
+        ores = pool.map(c05._http_overlap_job, ojobs, chunksize=1)
+    placements = 0
+    for ovios, ostats in ores:
+        rep.merge(ovios)
+        placements += ostats["cases"]
+    if placements == 0:
+        rep.harness_error("overlap phase: no suspension point was found in any conditional request")
     cov = {
+        "overlap_phase": {"pairs": [list(j[:2]) for j in ojobs], "placements_of_a_write_inside_a_conditional_request": placements},
         "states": res.states + len(jobs),
         "transitions": res.transitions + tot["cases"],
         "traces_validated_against_impl": tot["worlds"] + res.replays + twins,
@@ -275,4 +291,5 @@ def run(tier, workers=None):
         "RFC 7232 strong comparison; W/ weak validators are not generated (xandikos never emits them)",
         "unquoted values: only 'no effect unless identical to the header-less request' is required, the status is not defined by the property",
         "DELETE of an absent resource with If-Match may answer 404 or 412",
+        "overlap phase (E5): single-process server; suspension points = reading the request body and every to_thread call; the other request runs to completion there; allowed outcomes = the two sequential orders",
     ])
